@@ -164,7 +164,7 @@ theorem norm_pres (k : Kind) (ir : IR) : PresIR ir (norm k ir) := by
     simp only [norm]
     cases h : ir.returns with
     | none => exact Or.inl rfl
-    | some r => exact Or.inr ⟨r, normDocEntry st [] r, rfl, rfl, pres_doc st [] r⟩
+    | some r => exact Or.inr ⟨r, normDocEntry .rest [] r, rfl, rfl, pres_doc .rest [] r⟩
 
 /-- **C05**: a chain of conversions of ANY length through ANY kinds preserves the interface in the
     sense of `PresIR` (names, order, prose, types, explicit defaults; nothing invented or swapped
